@@ -49,7 +49,7 @@ def bad(rng):
 
 def gen_args(q, rng):
     """argument dict for the translator tie: mostly valid, sometimes guard-violating"""
-    f = q.split('.')[1]
+    f = q.split('.', 1)[1]
     inv = rng.random() < 0.12
     a = {}
     if f == 'economic_order_quantity':
@@ -63,10 +63,10 @@ def gen_args(q, rng):
         lam = pos(rng)
         a = dict(fixed_cost=pos(rng), holding_cost=cost(rng), demand_rate=lam, production_rate=lam * rng.uniform(1.05, 5), order_quantity=rng.choice([None, pos(rng)]))
         if inv and rng.random() < .4: a['production_rate'] = lam * rng.uniform(0.2, 1.0); inv = False
-    elif f in ('eoq_with_disruptions', 'eoq_with_disruptions_cost'):
+    elif f in ('eoq_with_disruptions[approximate=True]', 'eoq_with_disruptions_cost'):
         a = dict(fixed_cost=pos(rng), holding_cost=cost(rng), stockout_cost=cost(rng), demand_rate=pos(rng),
-                 disruption_rate=pos(rng, -2, 1), recovery_rate=pos(rng, -1, 2), approximate=rng.random() < .5)
-        if f.endswith('_cost'): a['order_quantity'] = pos(rng)
+                 disruption_rate=pos(rng, -2, 1), recovery_rate=pos(rng, -1, 2))
+        if f.endswith('_cost'): a.update(order_quantity=pos(rng), approximate=rng.random() < .5)
     elif f in ('eoq_with_additive_yield_uncertainty', 'eoq_with_multiplicative_yield_uncertainty'):
         add = 'additive' in f
         a = dict(fixed_cost=pos(rng), holding_cost=cost(rng), demand_rate=pos(rng),
@@ -276,6 +276,8 @@ def o_eoqd(o, rng, approximate):
     a = pos(rng, -2, 1); b = pos(rng, -1, 2)
     if rng.random() < .5:                                 # keep (a+b) Q / lam moderate: the interesting regime
         a = rng.uniform(0.1, 3); b = rng.uniform(2, 30)
+    if not approximate and rng.random() < .2:              # small fixed cost, holding cost above stockout cost: the approximation is poor
+        K = rng.uniform(0.01, 0.2); h = p * rng.uniform(2, 6); a = rng.uniform(0.05, 0.5); b = rng.uniform(1, 4)
     name = 'eoq_with_disruptions(approximate=%s)' % approximate
     case = dict(function='eoq_with_disruptions', fixed_cost=K, holding_cost=h, stockout_cost=p, demand_rate=lam, disruption_rate=a, recovery_rate=b, approximate=approximate)
     r = o.call(name, su.eoq_with_disruptions, case, K, h, p, lam, a, b, approximate)
@@ -291,11 +293,19 @@ def o_eoqd(o, rng, approximate):
         # the true minimum by what a displacement of 1e-5 costs; locate the true minimum independently and allow exactly that
         from scipy import optimize
         g = lambda y: float(su.eoq_with_disruptions_cost(y, K, h, p, lam, a, b, False))
-        res = optimize.minimize_scalar(g, bounds=(Q / 3, 3 * Q), method='bounded', options=dict(xatol=1e-13 * max(1.0, Q)))
-        c_true = min(float(res.fun), float(c)); q_true = float(res.x)
+        Qa = float(su.eoq_with_disruptions(K, h, p, lam, a, b, True)[0])
+        grid = list(np.geomspace(Qa / 1000, Qa * 1000, 241)) + [float(Q)]
+        gv = [g(y) for y in grid]
+        k = int(np.argmin(gv))
+        lo_b, hi_b = grid[max(k - 1, 0)] if k < 241 else Q / 2, grid[min(k + 1, 240)] if k < 241 else Q * 2
+        res = optimize.minimize_scalar(g, bounds=(lo_b, hi_b), method='bounded', options=dict(xatol=1e-13 * max(1.0, Q)))
+        c_true = min(float(res.fun), gv[k], float(c)); q_true = float(res.x) if float(res.fun) <= gv[k] else grid[k]
         slack = 2 * max(g(q_true + 1e-5) - c_true, g(max(q_true - 1e-5, q_true / 2)) - c_true, 0.0) + REL * max(1.0, abs(c_true))
         if float(c) - c_true > slack:
-            o.chk.fail(name + '|worse-than-search-tolerance', 'reported (Q, cost) = (%r, %r) but Q = %r costs %r: more than a 1e-5 displacement explains' % (Q, float(c), q_true, c_true), dict(case, decision=q_true))
+            at_end = abs(Q - Qa / 10) <= 1e-4 * Q or abs(Q - Qa * 10) <= 1e-4 * Q
+            o.chk.fail(name + ('|optimum-outside-search-bracket' if at_end else '|worse-than-search-tolerance'),
+                       'reported (Q, cost) = (%r, %r)%s but Q = %r costs %r: more than a 1e-5 displacement explains'
+                       % (Q, float(c), ' = end of the bracket [Q~/10, 10 Q~], Q~ = %r' % Qa if at_end else '', q_true, c_true), dict(case, decision=q_true))
         worse = 0
         for y, v in alts:
             if v is None: continue
@@ -464,7 +474,7 @@ def disc_distribs(rng):
 def o_nv_discrete(o, rng, model_cases=None):
     nv = imp('newsvendor')
     h = Fraction(rng.randint(1, 60), 4); p = Fraction(rng.randint(0, 120), 4)
-    if rng.random() < .1: p = Fraction(0)
+    if rng.random() < .2: p = Fraction(0)
     use_pmf = rng.random() < .6
     if use_pmf:
         pmf = gen_pmf(rng); fp = {k: float(v) for k, v in pmf.items()}
@@ -678,7 +688,7 @@ ORACLES = [
     ('eoq_with_disruptions_exact', lambda o, r: o_eoqd(o, r, False), 0.6), ('eoq_with_disruptions_approx', lambda o, r: o_eoqd(o, r, True), 1.0),
     ('eoq_with_additive_yield_uncertainty', lambda o, r: o_yield_eoq(o, r, True), 0.6), ('eoq_with_multiplicative_yield_uncertainty', lambda o, r: o_yield_eoq(o, r, False), 0.6),
     ('newsvendor_normal(+_cost)', o_nv_normal, 0.6), ('newsvendor_poisson(+_cost)', o_nv_poisson, 0.6), ('newsvendor_continuous', o_nv_continuous, 0.2),
-    ('newsvendor_discrete', None, 1.0), ('myopic(+_cost)', o_myopic, 0.6),
+    ('newsvendor_discrete', None, 3.0), ('myopic(+_cost)', o_myopic, 0.6),
     ('newsvendor_normal_explicit', lambda o, r: o_explicit(o, r, False), 0.6), ('newsvendor_poisson_explicit', lambda o, r: o_explicit(o, r, True), 0.6),
     ('newsvendor_with_additive_yield_uncertainty', o_nv_yield, 0.3), ('newsvendor_with_disruptions', o_nv_disruptions, 0.5),
     ('newsvendor_continuous_far_decision', o_far_continuous, 0.1),
